@@ -142,10 +142,10 @@ def generate(tier, seed):
     nrand = 5000 if tier == "quick" else 1000000
     for k, (lo, hi) in enumerate(chunks(0, nrand, 500)):
         cases.append({"kind": "rand", "k": k, "n": hi - lo})
-    ndisk = 8 if tier == "quick" else 300
+    ndisk = 24 if tier == "quick" else 300
     for k in range(ndisk):
         cases.append({"kind": "disk", "k": k, "n": 15})
-    for k in range(6 if tier == "quick" else 120):
+    for k in range(16 if tier == "quick" else 120):
         cases.append({"kind": "bigdisk", "k": k, "n": 24})
     return cases
 
